@@ -443,3 +443,57 @@ package ugo
 //@ ensures[name]  err == nil ==> specMapHas(r, AttrModuleName, String(moduleName))
 //@ ensures[attrs] verifrt.SameRef(m.Attrs, old(m.Attrs))
 //@ property C12
+
+// ---------------------------------------------------------------------------
+// C07: installing bytecode, clearing a VM and setting up the first frame
+// depend on nothing the VM did before, and never write the Bytecode (frame
+// clauses: only the listed VM fields change).
+
+//@ func (*VM).SetBytecode
+//@ params vm bc
+//@ results r
+//@ requires vm != nil && bc != nil
+//@ ensures r == vm && vm.bytecode == bc && verifrt.SameRef(vm.constants, bc.Constants) && len(vm.constants) == len(bc.Constants) && vm.modulesCache == nil
+//@ modifies vm.bytecode, vm.constants, vm.modulesCache
+//@ property C07
+
+//@ func (*VM).Clear
+//@ params vm
+//@ results r
+//@ requires vm != nil
+//@ ensures[stack] forall k int :: 0 <= k && k < stackSize ==> vm.stack[k] == nil
+//@ ensures[rest]  r == vm && vm.modulesCache == nil && vm.globals == nil && vm.bytecode == old(vm.bytecode)
+//@ loop 0 invariant forall k int :: 0 <= k && k < verifIdx ==> vm.stack[k] == nil
+//@ modifies vm.stack, vm.modulesCache, vm.globals, vm.pool.vms[*]
+//@ property C07
+
+//@ func (*VM).initCurrentFrame
+//@ params vm
+//@ requires vm != nil && vm.bytecode != nil && vm.bytecode.Main != nil
+//@ ensures[frame0] vm.curFrame == &vm.frames[0] && vm.curFrame.fn == vm.bytecode.Main && vm.curFrame.errHandlers == nil && vm.curFrame.basePointer == 0
+//@ ensures[insts]  verifrt.SameRef(vm.curInsts, vm.bytecode.Main.Instructions) && len(vm.curInsts) == len(vm.bytecode.Main.Instructions)
+//@ ensures[free]   vm.bytecode.Main.Free != nil ==> verifrt.SameRef(vm.curFrame.freeVars, vm.bytecode.Main.Free)
+//@ modifies vm.curInsts, vm.curFrame, vm.frames[0].fn, vm.frames[0].freeVars, vm.frames[0].errHandlers, vm.frames[0].basePointer
+//@ property C07
+
+//@ func (*VM).clearCurrentFrame
+//@ params vm
+//@ requires vm != nil && vm.curFrame != nil
+//@ ensures vm.curFrame.freeVars == nil && vm.curFrame.fn == nil && vm.curFrame.errHandlers == nil
+//@ modifies vm.curFrame.freeVars, vm.curFrame.fn, vm.curFrame.errHandlers
+//@ property C07
+
+// ---------------------------------------------------------------------------
+// C14: a pooled child VM is set up from the root VM with exactly the shared
+// parts (file set, constants, module cache, recovery flag) and the callee as
+// its main function, and is wiped when released.
+
+//@ func (*vmPool)._acquire
+//@ params v vm cf
+//@ results r
+//@ requires v != nil && vm != nil && vm.bytecode != nil && v.root != nil && v.root.bytecode != nil && vm != v.root && vm.bytecode != v.root.bytecode
+//@ ensures[child] r == vm && vm.bytecode.Main == cf && vm.bytecode.FileSet == v.root.bytecode.FileSet && vm.bytecode.NumModules == v.root.bytecode.NumModules
+//@ ensures[share] verifrt.SameRef(vm.constants, v.root.bytecode.Constants) && verifrt.SameRef(vm.bytecode.Constants, v.root.bytecode.Constants) && verifrt.SameRef(vm.modulesCache, v.root.modulesCache) && vm.noPanic == v.root.noPanic && vm.pool.root == v.root
+//@ ensures[reg]   specPoolHas(v, vm)
+//@ modifies vm.bytecode.FileSet, vm.bytecode.Constants, vm.bytecode.NumModules, vm.bytecode.Main, vm.constants, vm.modulesCache, vm.pool, vm.noPanic, v.vms, v.vms[*]
+//@ property C14
